@@ -1,0 +1,41 @@
+//go:build verif
+
+package preamble
+
+// Machine-checked contracts for the gowp verifier (/verif). Comment-only; compiled only under the
+// build tag "verif"; declares nothing.
+//
+// The ghost file model ($fcontent, $fdurable, $fpos, $fappend) is declared in internal/aof/log.
+
+//@ func (ReadWriter).Write trusted props C09
+//@   ensures result1 == nil ==> $fcontent[ref(this)] == log.wr(old($fcontent[ref(this)]), old($fpos[ref(this)]), $fappend[ref(this)], bstr(p))
+//@   ensures forall r Ref :: r != ref(this) ==> $fcontent[r] == old($fcontent[r]) && $fpos[r] == old($fpos[r])
+//@   modifies $fcontent, $fpos
+
+//@ func (ReadWriter).Sync trusted props C09
+//@   ensures result == nil ==> $fdurable[ref(this)] == $fcontent[ref(this)]
+//@   ensures forall r Ref :: r != ref(this) ==> $fdurable[r] == old($fdurable[r])
+//@   modifies $fdurable
+
+//@ func (ReadWriter).Truncate trusted props C09
+//@   ensures result == nil && size == 0 ==> $fcontent[ref(this)] == ""
+//@   ensures result != nil ==> $fcontent[ref(this)] == old($fcontent[ref(this)])
+//@   ensures forall r Ref :: r != ref(this) ==> $fcontent[r] == old($fcontent[r])
+//@   modifies $fcontent
+
+//@ func (ReadWriter).Seek trusted props C09
+//@   ensures result1 == nil && whence == 0 ==> $fpos[ref(this)] == offset
+//@   ensures forall r Ref :: r != ref(this) ==> $fpos[r] == old($fpos[r])
+//@   modifies $fpos
+
+//@ func (ReadWriter).Close trusted props C09
+//@   modifies nothing
+
+// A successful rewrite leaves exactly the bytes json.Marshal returned for the filtered state in the preamble file, and
+// durably so: no remnant of the previous preamble and no padding, wherever the handle was positioned before.
+// ($lastjson: the bytes returned by the last json.Marshal call - the encoder is outside the proof.)
+//@ func (*Store).CreatePreamble props C09,C02
+//@   requires store.rw != nil
+//@   assumes notappend: !$fappend[ref(store.rw)]
+//@   ensures {C09} whole: result == nil ==> $fcontent[ref(store.rw)] == $lastjson && $fdurable[ref(store.rw)] == $lastjson
+//@   modifies *
